@@ -203,6 +203,7 @@ pub fn run(tier: Tier) -> Report {
     for (name, alpha, max) in [
         ("char-soup", sigma_char(false), tier.pick(4, 6)),
         ("char-soup-extended-alphabet", sigma_char(true), tier.pick(3, 5)),
+        ("char-soup-space-like-characters", SIGMA_CHAR_SPACE_LIKE.to_vec(), tier.pick(4, 5)),
     ] {
         let texts = Strings::new(&alpha, max);
         let f: Vec<Failure> = (0..texts.count())
